@@ -214,10 +214,12 @@ func c14Enum(isV2 bool) *senum {
 		conds:    []nodeFn{func() *rt.Node { return rt.Bin("<", idx(), rt.Bin("+", one(), I(1))) }},
 		forInits: []nodeFn{nil, func() *rt.Node { return rt.Assign("=", Id("y"), I(0)) }},
 		forConds: []nodeFn{nil, func() *rt.Node { return rt.Bin("<", Id("x"), I(2)) }},
-		forSteps: []nodeFn{nil, func() *rt.Node { return inc("x") }},
+		// a post clause with a visible effect: nothing of it may happen once the signal was observed in the body
+		forSteps: []nodeFn{nil, func() *rt.Node { return inc("x") }, func() *rt.Node { return rt.Call("p", I(7), Id("x")) }},
 		forIns: []func(body *rt.Node) *rt.Node{
 			func(b *rt.Node) *rt.Node { return rt.ForIn("v", rt.List(I(1), I(2)), b) },
 			func(b *rt.Node) *rt.Node { return rt.ForIn("v", rt.Str("ab"), b) },
+			func(b *rt.Node) *rt.Node { return rt.ForIn("v", rt.Map(rt.Str("a"), I(1), rt.Str("b"), I(2), rt.Str("c"), I(3)), b) },
 		},
 		maxDepth: 3,
 		memoS:    map[[3]int]*Fam{},
@@ -336,7 +338,7 @@ func init() {
 	run.Register(&run.Check{
 		ID:    "C14",
 		Level: "fault_enumeration",
-		Rule: "every loop-bearing program of total size <=3 statements (nesting <=3) over {p(x), x = x + len(\"a\") (v2: x = id(x) + one()), add_key(k, len(\"abc\") + x), a raising statement, break, continue; if conditions contain a call} x if/else/elif x the 8 three-clause for shapes x for-in over list and string, " +
+		Rule: "every loop-bearing program of total size <=3 statements (nesting <=3) over {p(x), x = x + len(\"a\") (v2: x = id(x) + one()), add_key(k, len(\"abc\") + x), a raising statement, break, continue; if conditions contain a call} x if/else/elif x the 12 three-clause for shapes (post clause absent, an assignment, a probe call) x for-in over list, string and map, " +
 			"plus the same loops inside a script reached through use(), plus hand-written nested empty infinite loops (also two use() levels deep), on both interpreters; " +
 			"fault = the poll index k at which the exit signal first reports true, ALL k = 1..min(polls of the uninterrupted run, horizon 40 quick / 200 thorough); " +
 			"oracle: returns nil, final point = point at poll k of the uninterrupted run, probe trace = its prefix at poll k; non-trivial = distinct (interpreter, poll count, trace) of the uninterrupted runs",
